@@ -314,7 +314,9 @@ class Check:
         by_solver = {}
         for o in self.obligations:
             if o.result == "PROVED":
-                by_solver[o.solver] = by_solver.get(o.solver, 0) + 1
+                import re
+                key = re.sub(r"\d+ of \d+", "k of n", o.solver)
+                by_solver[key] = by_solver.get(key, 0) + 1
         by_kind = {}
         for o in self.obligations:
             k = o.kind.split("@")[0]
